@@ -28,6 +28,7 @@ import (
 	"syscall"
 	"time"
 
+	sxlog "github.com/v-byte-cpu/sx/command/log"
 	"github.com/v-byte-cpu/sx/pkg/scan"
 	"github.com/v-byte-cpu/sx/pkg/scan/docker"
 	"github.com/v-byte-cpu/sx/pkg/scan/elastic"
@@ -76,8 +77,12 @@ type tcase struct {
 	CPUSlowdown float64  `json:"cpu_slowdown"` // wall / CPU time of a 2 ms burn: 1.0 when quiet (see jitter.go)
 	Tries       int      `json:"tries"`
 	// end-to-end: run this sx binary (`sx elastic|docker --proto S -p PORT IP/32 --json -t <timeout>ms`)
-	E2E    string `json:"e2e,omitempty"`
-	Stderr string `json:"stderr,omitempty"`
+	E2E string `json:"e2e,omitempty"`
+	// what the plain-text logger printed for the record, and the panic (if any) that printing it raised
+	Plain      string `json:"plain,omitempty"`
+	PrintPanic string `json:"print_panic,omitempty"`
+	PlainCLI   bool   `json:"plain_cli,omitempty"` // e2e without --json (the CLI's default output mode)
+	Stderr     string `json:"stderr,omitempty"`
 }
 
 // cliResult is what the command line printed, projected like a ScanResult.
@@ -90,14 +95,19 @@ func (c *cliResult) ID() string                   { return c.r.Host }
 func (c *cliResult) MarshalJSON() ([]byte, error) { return json.Marshal(c.r) }
 
 type cliProbe struct {
+	plain             bool
 	bin, kind, scheme string
 	timeout           int
 	stderr            string
 }
 
 func (p *cliProbe) Scan(ctx context.Context, r *scan.Request) (scan.Result, error) {
-	cmd := exec.CommandContext(ctx, p.bin, p.kind, "--proto", p.scheme, "-p", strconv.Itoa(int(r.DstPort)),
-		r.DstIP.String()+"/32", "--json", "-t", fmt.Sprintf("%dms", p.timeout), "--exit-delay", "20ms")
+	args := []string{p.kind, "--proto", p.scheme, "-p", strconv.Itoa(int(r.DstPort)),
+		r.DstIP.String() + "/32", "-t", fmt.Sprintf("%dms", p.timeout), "--exit-delay", "20ms"}
+	if !p.plain {
+		args = append(args, "--json")
+	}
+	cmd := exec.CommandContext(ctx, p.bin, args...)
 	var so, se bytes.Buffer
 	cmd.Stdout, cmd.Stderr = &so, &se
 	err := cmd.Run()
@@ -106,11 +116,32 @@ func (p *cliProbe) Scan(ctx context.Context, r *scan.Request) (scan.Result, erro
 		p.stderr = p.stderr[len(p.stderr)-300:]
 	}
 	if err != nil {
+		if i := strings.Index(se.String(), "panic:"); i >= 0 { // the process died: say why
+			msg := se.String()[i:]
+			if j := strings.Index(msg, "\n"); j > 0 {
+				msg = msg[:j]
+			}
+			return nil, fmt.Errorf("sx %s crashed (%v): %s", p.kind, err, msg)
+		}
 		return nil, err
 	}
 	line := strings.TrimSpace(so.String())
 	if line == "" {
 		return nil, errors.New("no record printed")
+	}
+	if p.plain { // elastic: "<proto>://<host> <cluster_name> <number of indexes>"
+		f := strings.Fields(strings.Split(line, "\n")[0])
+		res := &cliResult{}
+		if len(f) < 2 || !strings.Contains(f[0], "://") {
+			return nil, fmt.Errorf("unparsable plain output %q", line)
+		}
+		res.r.Scan = p.kind
+		res.r.Proto, res.r.Host, _ = strings.Cut(f[0], "://")
+		res.r.Secondary = f[len(f)-1] != "0"
+		if len(f) >= 3 {
+			res.r.InfoName = f[1]
+		}
+		return res, nil
 	}
 	var m map[string]interface{}
 	if err := json.Unmarshal([]byte(strings.Split(line, "\n")[0]), &m); err != nil {
@@ -168,6 +199,14 @@ func bodyBytes(kind, slot, class string) []byte {
 		return []byte(`{"cluster_name":5,"version":"x"}`)
 	case "huge_object":
 		return []byte(obj[:len(obj)-1] + `,"pad":"` + strings.Repeat("x", 2<<20) + `"}`)
+	case "object_version_number": // known fields with another type than a real node serves
+		return []byte(`{"version":5,"cluster_name":["a","b"]}`)
+	case "object_version_nested":
+		return []byte(`{"version":{"number":7},"cluster_name":null}`)
+	case "object_unrelated":
+		return []byte(`{"ok":true}`)
+	case "object_secured":
+		return []byte(`{"error":{"root_cause":[{"type":"security_exception","reason":"missing authentication credentials"}],"type":"security_exception"},"status":401}`)
 	case "empty_object":
 		return []byte("{}")
 	case "empty_object_ws":
@@ -451,7 +490,7 @@ func runCase(c *tcase) {
 	caseStart := time.Now()
 	defer func() { c.JitterMS, c.CPUSlowdown = loadBetween(caseStart, time.Now()) }()
 	c.Tries++
-	c.Reqs, c.Rec, c.Err = nil, nil, ""
+	c.Reqs, c.Rec, c.Err, c.Plain, c.PrintPanic = nil, nil, "", "", ""
 	ip := net.ParseIP(c.IP)
 	p := &peer{c: c, done: make(chan struct{}), tls: tlsConf}
 	var listener net.Listener
@@ -492,7 +531,7 @@ func runCase(c *tcase) {
 	}
 	var cli *cliProbe
 	if c.E2E != "" {
-		cli = &cliProbe{bin: c.E2E, kind: c.Kind, scheme: c.Scheme, timeout: c.Timeout}
+		cli = &cliProbe{bin: c.E2E, kind: c.Kind, scheme: c.Scheme, timeout: c.Timeout, plain: c.PlainCLI}
 		s = cli
 	}
 	ctx, cancel := context.WithCancel(context.Background())
@@ -579,6 +618,9 @@ func runCase(c *tcase) {
 			r.Scan = fmt.Sprintf("%T", o.res)
 		}
 		c.Rec = r
+		if _, isCLI := o.res.(*cliResult); !isCLI {
+			c.Plain, _, c.PrintPanic = printRecord(o.res, c.Kind)
+		}
 		c.Obs = 0
 		if !r.Secondary {
 			c.Obs++
@@ -587,6 +629,52 @@ func runCase(c *tcase) {
 			c.Obs += 2
 		}
 	}
+}
+
+// printRecord pushes the record through the loggers the command line uses (command/log, plain = the default output
+// mode, and JSON) the way startScanEngine does, and calls its String / ID / MarshalJSON methods.  A panic anywhere in
+// there kills the whole scan process in reality (the result-logging goroutine has no recover): it is reported.
+func printRecord(res scan.Result, label string) (plain, js, panicked string) {
+	run := func(what string, f func()) {
+		defer func() {
+			if r := recover(); r != nil && panicked == "" {
+				panicked = fmt.Sprintf("%s: %v", what, r)
+			}
+		}()
+		f()
+	}
+	for _, mode := range []string{"plain", "json"} {
+		var buf bytes.Buffer
+		run("printing the record in "+mode+" output mode (command/log LogResults)", func() {
+			opt := sxlog.Plain()
+			if mode == "json" {
+				opt = sxlog.JSON()
+			}
+			l, err := sxlog.NewLogger(&buf, label, opt)
+			if err != nil {
+				panic(err)
+			}
+			ch := make(chan scan.Result, 1)
+			ch <- res
+			close(ch)
+			l.LogResults(context.Background(), ch)
+		})
+		if mode == "plain" {
+			plain = strings.TrimSpace(buf.String())
+		} else {
+			js = strings.TrimSpace(buf.String())
+		}
+	}
+	run("String()", func() { _ = res.String() })
+	run("ID()", func() { _ = res.ID() })
+	run("MarshalJSON()", func() { _, _ = res.MarshalJSON() })
+	if len(js) > 300 {
+		js = js[:300]
+	}
+	if len(plain) > 300 {
+		plain = plain[:300]
+	}
+	return
 }
 
 func maxInt(a, b int) int {
@@ -671,7 +759,8 @@ func (g *gen) generate(n int) {
 			classes := bodyClasses
 			if kind == "elastic" {
 				// the empty object is an object (for docker it is indistinguishable from null in the decoded struct)
-				classes = append(append([]string{}, bodyClasses...), "empty_object", "empty_object_ws")
+				classes = append(append([]string{}, bodyClasses...), "empty_object", "empty_object_ws",
+					"object_version_number", "object_version_nested", "object_unrelated", "object_secured")
 			}
 			for _, b := range classes {
 				for k := 0; k < 2; k++ {
@@ -688,7 +777,7 @@ func (g *gen) generate(n int) {
 			// transport faults and error statuses at every request
 			faults := []resp{}
 			if kind == "elastic" {
-				faults = append(faults, resp{Kind: "resp", Status: 401, Body: "empty_object"},
+				faults = append(faults, resp{Kind: "resp", Status: 401, Body: "object_secured"}, resp{Kind: "resp", Status: 401, Body: "empty_object"},
 					resp{Kind: "resp", Status: 403, Body: "empty_object_ws", CType: "text/plain"})
 			}
 			for _, f := range append(faults, []resp{{Kind: "close"}, {Kind: "rst"}, {Kind: "stall"}, {Kind: "close", Delay: 30},
@@ -702,7 +791,7 @@ func (g *gen) generate(n int) {
 				}
 				c := g.base(kind)
 				c.Class = fmt.Sprintf("%s:%s:%s/%d", kind, slot, f.Kind, f.Status)
-				if strings.HasPrefix(f.Body, "empty_object") {
+				if strings.HasPrefix(f.Body, "empty_object") || f.Body == "object_secured" {
 					c.Class += "/" + f.Body
 				}
 				if f.Delay == 100000 { // headers arrive after the deadline
@@ -861,6 +950,18 @@ func main() {
 						f(c)
 					}
 					mk("object", func(c *tcase) {})
+					if kind == "elastic" && k == 0 {
+						// the CLI's DEFAULT output mode (no --json): the record goes through ScanResult.String()
+						for _, b := range []string{"object", "object_ill_typed", "object_version_number", "object_version_nested",
+							"object_unrelated", "empty_object"} {
+							b := b
+							mk("plain:"+b, func(c *tcase) { c.PlainCLI = true; c.Slots["info"] = ok(b) })
+						}
+						mk("plain:401-secured", func(c *tcase) {
+							c.PlainCLI = true
+							c.Slots["info"] = resp{Kind: "resp", Status: 401, Body: "object_secured"}
+						})
+					}
 					mk("null", func(c *tcase) { c.Slots["info"] = ok("null") })
 					mk("array", func(c *tcase) { c.Slots["info"] = ok("array") })
 					mk("garbage", func(c *tcase) { c.Slots["info"] = ok("garbage") })
